@@ -1,11 +1,13 @@
 #!/bin/bash
-# tools/run_benign.sh : all checks must stay silent on every behaviour-preserving refactoring in selftest/benign
+# tools/run_benign.sh [glob] : all checks must stay silent on every behaviour-preserving refactoring in selftest/benign (5 in parallel)
 cd "$(dirname "$0")/.."
-rc=0
-for p in selftest/benign/*/patch.diff; do
+one() {
+  p=$1
   r=$(tools/variant.sh $p C01 C03 C04 C05 C08 C09 C10 C11 C12 C13 C14 C15 C16 C17 C18 C19 C20 2>&1)
   n=$(echo "$r" | grep -c "^VIOLATION")
-  echo "$(basename $(dirname $p)) alarms=$n"
-  [ "$n" != 0 ] && rc=1
-done
-exit $rc
+  echo "$(basename $(dirname $p)) alarms=$n $(echo "$r" | grep "^VIOLATION" | sed 's/ replay=.*//' | sort -u | tr '\n' ' ')"
+}
+export -f one
+ls selftest/benign/${1:-*}/patch.diff | xargs -P 5 -I{} bash -c 'one {}' | sort > /tmp/run_benign.out
+cat /tmp/run_benign.out
+! grep -qv "alarms=0" /tmp/run_benign.out
